@@ -88,6 +88,9 @@ func registerStubs(m map[string]Intrinsic) {
 	// ---- sync
 	m["(*sync.RWMutex).Lock"] = func(e *Exec, st *State, ci *CallInfo) Outcome {
 		k := ci.Args[0].(*Ptr).key()
+		if st.sched != nil {
+			return e.schedAcquire(st, ci, "rw:"+k, true)
+		}
 		if e.extraInt(st, "rw:w:"+k) != 0 || e.extraInt(st, "rw:r:"+k) != 0 {
 			return e.deadlock(st, "RWMutex.Lock while the lock is held by the same goroutine")
 		}
@@ -97,6 +100,13 @@ func registerStubs(m map[string]Intrinsic) {
 	}
 	m["(*sync.RWMutex).Unlock"] = func(e *Exec, st *State, ci *CallInfo) Outcome {
 		k := ci.Args[0].(*Ptr).key()
+		if st.sched != nil {
+			if !e.schedRelease(st, "rw:"+k, true) {
+				e.startPanic(st, &Iface{T: runtimeErrorType, V: e.ConcStr("sync: Unlock of unlocked RWMutex")}, "fatal error: sync: Unlock of unlocked RWMutex")
+				return handled
+			}
+			return val(nil)
+		}
 		if e.extraInt(st, "rw:w:"+k) == 0 {
 			e.startPanic(st, &Iface{T: runtimeErrorType, V: e.ConcStr("sync: Unlock of unlocked RWMutex")}, "fatal error: sync: Unlock of unlocked RWMutex")
 			return handled
@@ -107,6 +117,9 @@ func registerStubs(m map[string]Intrinsic) {
 	}
 	m["(*sync.RWMutex).RLock"] = func(e *Exec, st *State, ci *CallInfo) Outcome {
 		k := ci.Args[0].(*Ptr).key()
+		if st.sched != nil {
+			return e.schedAcquire(st, ci, "rw:"+k, false)
+		}
 		if e.extraInt(st, "rw:w:"+k) != 0 {
 			return e.deadlock(st, "RWMutex.RLock while write-locked by the same goroutine")
 		}
@@ -116,6 +129,13 @@ func registerStubs(m map[string]Intrinsic) {
 	}
 	m["(*sync.RWMutex).RUnlock"] = func(e *Exec, st *State, ci *CallInfo) Outcome {
 		k := ci.Args[0].(*Ptr).key()
+		if st.sched != nil {
+			if !e.schedRelease(st, "rw:"+k, false) {
+				e.startPanic(st, &Iface{T: runtimeErrorType, V: e.ConcStr("sync: RUnlock of unlocked RWMutex")}, "fatal error: sync: RUnlock of unlocked RWMutex")
+				return handled
+			}
+			return val(nil)
+		}
 		if e.extraInt(st, "rw:r:"+k) == 0 {
 			e.startPanic(st, &Iface{T: runtimeErrorType, V: e.ConcStr("sync: RUnlock of unlocked RWMutex")}, "fatal error: sync: RUnlock of unlocked RWMutex")
 			return handled
@@ -126,6 +146,9 @@ func registerStubs(m map[string]Intrinsic) {
 	}
 	m["(*sync.Mutex).Lock"] = func(e *Exec, st *State, ci *CallInfo) Outcome {
 		k := ci.Args[0].(*Ptr).key()
+		if st.sched != nil {
+			return e.schedAcquire(st, ci, "mu:"+k, true)
+		}
 		if e.extraInt(st, "mu:"+k) != 0 {
 			return e.deadlock(st, "Mutex.Lock while held by the same goroutine")
 		}
@@ -135,6 +158,10 @@ func registerStubs(m map[string]Intrinsic) {
 	}
 	m["(*sync.Mutex).Unlock"] = func(e *Exec, st *State, ci *CallInfo) Outcome {
 		k := ci.Args[0].(*Ptr).key()
+		if st.sched != nil {
+			e.schedRelease(st, "mu:"+k, true)
+			return val(nil)
+		}
 		st.extra["mu:"+k] = e.i64(0)
 		e.recLock(st, EvUnlockW, "mu:"+k)
 		return val(nil)
